@@ -523,7 +523,7 @@ CatalogFragment::CatalogFragment(DFS::Format format,
       {
 	// We sign-extend just two digits (unlike the example above) ,
 	// as this is what the BBC model B DFS does.
-	return 0xFF0000 | address;
+	return 0xFC0000 | address;
       }
     else
       {
